@@ -74,6 +74,18 @@ def build(V, cfg):
         cond = ValueCondition(tank, spec.get('attr', 'level'), rel, 0.0)
         cond._threshold = thr
         tgt = wn.get_link(spec.get('target', 'P3'))
+        if cfg.get('via_reader') and spec.get('attr', 'level') == 'level':
+            # the control as the INP reader builds it from a [CONTROLS] line (its action carries what the reader puts there)
+            from wntr.epanet.io import _read_control_line
+            from wntr.epanet.util import FlowUnits
+            word = ('%g' % spec['value']) if spec.get('what', 'status') == 'setting' else {0: 'CLOSED', 1: 'OPEN'}[int(spec['value'])]
+            line = 'LINK %s %s IF NODE T %s 5.0' % (tgt.name, word, 'ABOVE' if spec['rel'] in ('gt', 'ge') else 'BELOW')
+            ctl = _read_control_line(line, wn, FlowUnits.SI, 'u%d' % k)
+            ctl._condition._threshold = thr
+            ctl._priority = ControlPriority(spec.get('priority', 3))
+            wn.add_control('u%d' % k, ctl)
+            x['controls'].append(dict(spec, thr=thr))
+            continue
         if spec.get('what', 'status') == 'setting':
             act = ControlAction(tgt, 'setting', spec['value'])
         else:
